@@ -5,6 +5,7 @@ use std::path::Path;
 pub mod c03;
 pub mod soundness;
 pub mod refprop;
+pub mod c05;
 pub mod c08;
 pub mod c09;
 pub mod c10;
@@ -26,6 +27,7 @@ pub fn run(session: &Session) -> i32 {
         "C11" => refprop::run(session, &refprop::C11, "typed programs from the iterator profile (array iterators, pipelines of @ ? ? T, reducers $ $+ $* $& $| $], partition, for loops, shared stateful iterators, effectful callbacks) compared with the reference's sequence semantics incl. laziness and pull order through the tick log. Non-trivial = at least one iterator pull; distinct by program text."),
         "C12" => refprop::run(session, &refprop::C12, "typed programs from the control profile (if / match with value, type and default arms / if-set / while-set / loop / while / for nested in functions with break, continue and return at every depth) compared with the reference. Non-trivial = a non-local exit was taken, an arm other than the first was selected, or a run-time type dispatch happened; distinct by program text."),
         "C13" => refprop::run(session, &refprop::C13, "typed programs from the cells profile (cells in bindings, aliases, closures, arrays; all 12 assignment operators incl. failing compound assignments; assignments used as expressions) compared with the reference heap: every read, every value an assignment yields, the aliasing structure of the final values and, after a run-time error, the cells the host can still reach; plus the assignment part of the operator x operand-type matrix with the verif monitor: every template over parameters whose type mentions mut, called with every catalogue value the host API admits, after which every reachable cell must hold a value of its declared type. Non-trivial = at least 2 writes with an aliased read, or a failing compound assignment; distinct by program text."),
+        "C05" => c05::run(session),
         "C08" => c08::run(session),
         "C09" => c09::run(session),
         "C10" => c10::run(session),
@@ -53,6 +55,7 @@ pub fn replay(session: &Session, path: &Path) -> i32 {
         "C11" => crate::engine::replay(session, &refprop::C11, path),
         "C12" => crate::engine::replay(session, &refprop::C12, path),
         "C13" => crate::engine::replay(session, &refprop::C13, path),
+        "C05" => crate::engine::replay(session, &c05::C05, path),
         "C08" => crate::engine::replay(session, &c08::C08, path),
         "C09" => crate::engine::replay(session, &c09::C09, path),
         "C10" => crate::engine::replay(session, &c10::C10, path),
